@@ -148,7 +148,7 @@ def render_file(assign, callables):
     return "\n".join(lines) + "\n"
 
 
-def load(cli=None, env=None, file=None, fw=None, conf_path=None, cli_conf=None, env_conf=None, reload_to=None):
+def load(cli=None, env=None, file=None, fw=None, conf_path=None, cli_conf=None, env_conf=None, reload_to=None, no_app=False):
     """One real configuration load.  cli/env: token lists; file: text of ./gunicorn.conf.py (or of
     conf_path); fw: dict for init().  Returns ('ok', {name: value}) or ('error', text)."""
     st = _setup()
@@ -168,7 +168,7 @@ def load(cli=None, env=None, file=None, fw=None, conf_path=None, cli_conf=None, 
             os.unlink(default_conf)
         if file is not None and conf_path is None:
             open(default_conf, "w").write(file)
-        argv = ["gunicorn"] + (["-c", cli_conf] if cli_conf else []) + list(cli or []) + ["app:app"]
+        argv = ["gunicorn"] + (["-c", cli_conf] if cli_conf else []) + list(cli or []) + ([] if no_app else ["app:app"])
         sys.argv = argv
         e = (["-c", env_conf] if env_conf else []) + list(env or [])
         if e:
@@ -328,6 +328,48 @@ def _setting_task(name):
             if status == "ok":
                 note("invalid-value-accepted:%s" % src, "%s gave the invalid value %r; startup went on with %r" % (src, bad, snap[name]),
                      {"invalid": repr(bad), "src": src})
+    # values of the wrong python type (configuration file and framework defaults can carry any object)
+    vname = getattr(s.validator, "__name__", "")
+    wrong = {"validate_user": [("www-data",), ["root"], 1.5], "validate_group": [("www-data",), ["root"], 1.5],
+             "validate_string": [("x",), 1.5], "validate_pos_int": [("3",), [3]], "validate_bool": [("true",), 1.5]}.get(vname, [])
+    if name == "paste":
+        wrong = []
+    for src in ("file", "fw"):
+        if src not in srcs:
+            continue
+        for bad in wrong:
+            kw = {"file": "%s = %r\n" % (name, bad)} if src == "file" else {"fw": {name: bad}}
+            evals += 1
+            nontriv += 1
+            status, snap = load(**kw)
+            if status == "ok":
+                note("invalid-value-accepted:%s:wrong-type" % src, "%s gave %r (wrong type for this setting); startup went on with %r" % (src, bad, snap[name]),
+                     {"invalid": repr(bad), "src": src})
+    # only the documented (lower-case) name of a setting is a setting: any other variable of the configuration file is just a variable
+    if name not in callables:
+        for variant in (name.upper(), name.title(), "_" + name, name + "_"):
+            if variant == name:
+                continue
+            evals += 1
+            nontriv += 1
+            status, snap = load(file="%s = %r\n" % (variant, values[0]))
+            if status != "ok":
+                note("unrelated-variable-rejected", "a configuration file that assigns the variable %s failed to load: %s" % (variant, snap), {"variant": variant})
+            elif snap[name] != dflt[name]:
+                note("unrelated-variable-applied", "the configuration file assigns %s = %r (not a setting name); setting %s became %r (default %r)" % (
+                    variant, values[0], name, snap[name], dflt[name]), {"variant": variant})
+    # the application named by the configuration file (wsgi_app) instead of the command line: the file's other mentions count all the same
+    if "file" in srcs and name not in ("wsgi_app", "paste"):
+        evals += 1
+        nontriv += 1
+        txt = "wsgi_app = 'app:app'\n" + render_file({name: values[0]}, callables)
+        status, snap = load(file=txt, no_app=True)
+        want = normalise(name, values[0], callables)
+        if status != "ok":
+            note("valid-value-rejected:file+wsgi_app", "file mentions wsgi_app and %s: load failed: %s" % (name, snap), {})
+        elif snap[name] != want:
+            note("effective-value:file+wsgi_app", "the configuration file names the application (wsgi_app) and sets %s = %r; effective value %r" % (
+                name, values[0], snap[name]), {})
     # reload histories: S1 -> S2 must equal a fresh load of S2
     hist = []
     f1 = build_sources(s, {"file": values[0]}, callables)
